@@ -9,7 +9,7 @@ IsEvent(x) == i <= Len(Rec) /\ Rec[i].ev = x /\ i' = i + 1
 R == Rec[i]
 Reset   == IsEvent("Reset") /\ st' = Fresh
 Inj     == IsEvent("Inj") /\ InjOk(R.kind, R.s, R.e, R.init, R.rel, R.t, st) /\ st' = AfterInj(R.kind, R.s, R.e, R.init, R.rel, R.t, st)
-AppRx   == IsEvent("AppRx") /\ AppRxOk(R.x, R.role, R.minit, R.s, R.ex, R.ts, R.tag, R.t, st) /\ UNCHANGED st
+AppRx   == IsEvent("AppRx") /\ AppRxOk(R.x, R.role, R.opening, R.waited, R.minit, R.s, R.ex, R.ts, R.tag, R.t, st) /\ UNCHANGED st
 DevInit == IsEvent("DevInit") /\ DevInitOk(R.s, R.e, st) /\ st' = AfterDevInit(R.s, R.e, st)
 Tx      == IsEvent("Tx") /\ TxOk(R.kind, R.s, R.e, R.secured, {R.gone[j] : j \in 1..Len(R.gone)}, R.t, st) /\ st' = AfterTx(R.kind, R.s, R.e, R.secured, {R.gone[j] : j \in 1..Len(R.gone)}, R.t, st)
 PSent   == IsEvent("ProbeSent") /\ ProbeSentOk(R.t, st) /\ st' = AfterProbeSent(R.t, st)
